@@ -133,6 +133,18 @@ def every_iteration(fn, L, node):
     return all(pos[0] in p[1:] for p in plist)
 
 
+def _first_cond(k):
+    if isinstance(k, tuple):
+        if k[0] == "cond" and len(k) == 4:
+            return k
+        for x in k:
+            if isinstance(x, tuple):
+                r = _first_cond(x)
+                if r is not None:
+                    return r
+    return None
+
+
 def return_cases(fn, ctx, limit=512):
     """The function as a case table: one entry per (acyclic entry->exit path, alternative of a conditional expression
     in the returned value), each {facts, key, ret, path}: `facts` the branch facts of the path (plus the condition of the
@@ -169,6 +181,14 @@ def return_cases(fn, ctx, limit=512):
                     f2 = set(fs) | set(add)
                     if feasible(f2):
                         stack.append((f2, alt))
+                continue
+            # a conditional buried in the expression (x + (c ? a : b)): split on the first one found
+            inner = _first_cond(k)
+            if inner is not None and len(out) + len(stack) < 64:
+                for truth, alt in ((True, inner[2]), (False, inner[3])):
+                    f2 = set(fs) | set(key_facts(inner[1], truth))
+                    if feasible(f2):
+                        stack.append((f2, key_subst(k, lambda y, inner=inner, alt=alt: alt if y == inner else None)))
                 continue
             out.append({"facts": fs, "key": k, "ret": rets[0], "path": pth})
     return out
